@@ -28,7 +28,8 @@ META = {
 TIMEOUT_S = {"quick": 400, "thorough": 1200}
 
 
-def constraint(S, kind, tf, k):
+def constraint(S, kind, tf, k, reg=False):
+    # reg=True: transform given, inv_transform=None -> the inverse comes from utils.transforms.TRANSFORM_REGISTRY
     CTX.monotone = True
     lb = S.randn(k, scale=0.5) if kind in ("greater", "interval") else None
     ub = None
@@ -39,6 +40,8 @@ def constraint(S, kind, tf, k):
     tfs = {"softplus": (torch.nn.functional.softplus, None), "exp": (torch.exp, torch.log), "sigmoid": (torch.sigmoid, None)}
     t, it = tfs[tf]
     kw = {"transform": t, "inv_transform": it} if tf == "exp" else ({"transform": t} if tf != "softplus" or kind == "interval" else {})
+    if reg:
+        kw = {"transform": t, "inv_transform": None}
     if kind == "positive":
         c = Positive(**kw)
     elif kind == "greater":
@@ -633,6 +636,8 @@ def scenarios(tier, seed):
             add("constraint", kind=kind, tf=tf, k=k)
     if tier == "quick":
         add("constraint", kind="interval", tf="sigmoid", k=2)
+    for kind, tf in [("interval", "sigmoid"), ("greater", "softplus"), ("less", "softplus"), ("positive", "exp")]:
+        add("constraint", kind=kind, tf=tf, k=1, reg=True)
     for t in SETTERS:
         add("setter", target=t)
         add("setter_custom", target=t)
